@@ -1,9 +1,12 @@
 # setup: builds only what does not depend on /repo (the checks rebuild the rest from the working tree)
 CC=cc
-all: shim/vshim.so
+all: shim/vshim.so shim/standin
 
 shim/vshim.so: shim/vshim.c
 	$(CC) -O1 -g -shared -fPIC -o $@ shim/vshim.c -ldl
 
+shim/standin: shim/standin.c
+	$(CC) -O1 -g -o $@ shim/standin.c
+
 clean:
-	rm -f shim/vshim.so shim/*.o
+	rm -f shim/vshim.so shim/standin shim/*.o
